@@ -19,8 +19,10 @@ import (
 	"testing"
 	"time"
 
+	"github.com/fxamacker/cbor/v2"
 	"github.com/mycoria/mycoria/frame"
 	"github.com/mycoria/mycoria/m"
+	"github.com/mycoria/mycoria/router"
 	"github.com/mycoria/mycoria/state"
 	"github.com/mycoria/mycoria/storage"
 
@@ -155,6 +157,12 @@ func run(e *core.Env) {
 	edges := [][2]int{{0, 1}, {0, 2}, {1, 3}}
 	if tp.Chance(1, 2) {
 		edges = append(edges, [2]int{2, 3})
+	}
+	if tp.Chance(1, 3) {
+		// V has a third peer: what V forwards on behalf of X (a disconnect notice) goes to two
+		// other links, one copy each
+		edges = append(edges, [2]int{0, 3})
+		e.Probe("victim_with_three_peers")
 	}
 	// In half of the runs two more routers sit behind Z (Z - T1 - T2), and the announcements
 	// that Z and T1 issue themselves never reach V (a router sheds frames when its worker is
@@ -378,7 +386,27 @@ func run(e *core.Env) {
 				_ = X.Router.ErrorPing.SendRejected(V.IP, X.IP, 17, 53)
 			}
 		case 8:
-			_ = X.Router.DisconnectPing.Send(tp.Chance(1, 2), []netip.Addr{Z.IP})
+			if tp.Chance(1, 3) {
+				// as the shipped sender addresses it (to the router address: receivers route it on)
+				_ = X.Router.DisconnectPing.Send(tp.Chance(1, 2), []netip.Addr{Z.IP})
+				break
+			}
+			// A disconnect notice that V itself has to handle: addressed to V, or sent as a hop
+			// ping - built like the shipped sender builds it, signed by X for V.
+			dmsg, _ := cbor.Marshal(&router.DisconnectPingMsg{GoingDown: tp.Chance(1, 3), Disconnected: []netip.Addr{Z.IP}})
+			body := mesh.PingBody(X, "disconnect", uint64(tp.Uint32())+1, 0, false, dmsg)
+			mt, dst := frame.RouterPing, V.IP
+			if tp.Chance(1, 3) {
+				mt, dst = frame.RouterHopPing, m.RouterAddress
+			}
+			if df, err := X.Inst.Builder.NewFrameV1(X.IP, dst, mt, nil, body, nil); err == nil {
+				if err := df.Seal(X.State.GetSession(V.IP)); err != nil {
+					e.Infra("seal disconnect: %v", err)
+				}
+				df.SetTTL(31)
+				_ = linkXV.SendPriority(df)
+				e.Probe("disconnect_ping_addressed_to_the_victim")
+			}
 		case 9:
 			_ = X.Router.AnnouncePing.Send(V.IP)
 		case 10, 11:
